@@ -62,6 +62,10 @@ def maskRows (t : Table) (m : List Bool) : Table := ((t.zip m).filter fun e => e
 
 def subsetMask (t : Table) (m : List Bool) : Table := classify (fixOrphans (maskRows t m))
 
+/-- `x.nodes.node_id.values[mask]`: the ids a boolean mask marks (what `prevent_fragments` hands to
+`connected_subgraph` when the subset is given as a mask). -/
+def maskIds (t : Table) (m : List Bool) : List Int := ids (maskRows t m)
+
 /-- `subset_neuron(..., prevent_fragments=True)` on the neuron state: node table as `subsetPF`, the
 filters see the final table (the reroot keeps the node set). -/
 def subsetNeuronPF (x : Neuron) (ss : List Int) (keepDiscCn : Bool := false) : Neuron :=
